@@ -11,6 +11,9 @@ from specs.heap import Heap, OBJ_KINDS, ALL_KINDS
 MD = "_griffe.models:"
 LD = "_griffe.loader:GriffeLoader."
 
+# these native replays search on their own (guided by the obligation / expected outcome), not from the abstract witness: one run per obligation
+REPLAY_KEYED_BY_EXPECTS = {"replay_alias_graphs", "replay_resolve_target"}
+
 TRUSTED_BASE = [
     "finite heap, no RecursionError: termination of the mutual recursion resolve_target/_resolve_target follows from the proved variant "
     "(the caller is marked passed-through before it recurses, and a passed-through alias raises CyclicAliasError without recursing)",
